@@ -56,6 +56,8 @@ THEOREMS = ["C14_fail_closed", "C14_never_partial", "C14_never_partial_of_served
             "C14_not_empty_of_served_version", "C14_checksum", "C14_checksum_by_default", "C14_untouched",
             "C14_row_count_metadata_only", "C14_history_independent", "C14_checksum_survives_history", "C14_no_check_use_gap", "C14_list_fields_without_read_meaning",
             "C14_recovery_listing_fails_closed", "C14_batched_guard_complete", "C14_healthy_ok",
+            "C14_blocks_all_or_nothing", "C14_blocks_raise_at_first_bad_block", "C14_bad_manifest_block_fails_closed",
+            "C14_bad_list_block_fails_closed", "C14_decode_cache_transparent", "C14_eager_decode_cache_refuted",
             "C14_fail_closed_full_refuted", "C14_not_empty_full_refuted"]
 REQ = ["DS.Gen.GenRead", "DS.Model.Read"]
 KNOWN_KEY = "current-metadata-file-deleted-serves-previous-version"
@@ -367,13 +369,13 @@ def _rewrite(path: str, rel: str, content: bytes) -> None:
         f.write(content)
 
 
-def _avro_rewrite(b: bytes, edit) -> bytes:
+def _avro_rewrite(b: bytes, edit, **writer_options) -> bytes:
     import fastavro
     rd = fastavro.reader(io.BytesIO(b))
     schema = rd.writer_schema
     recs = edit(list(rd))
     out = io.BytesIO()
-    fastavro.writer(out, schema, recs)
+    fastavro.writer(out, schema, recs, **writer_options)
     return out.getvalue()
 
 
@@ -447,6 +449,17 @@ def variant_rowgroups(path: str) -> None:
         _rewrite(path, m, _avro_rewrite(inv.files[m], reregister))
 
 
+def variant_blocks(path: str) -> None:
+    """Every Avro container of the current snapshot (manifest list, manifests) re-encoded with ONE record per block
+    (writer sync interval 1 byte): the same records, spread over as many container blocks as there are records --
+    what a bulk commit produces naturally (a manifest of more than ~60 entries), on a table small enough for the
+    whole damage matrix.  A streaming decoder hands out the records of the leading blocks before it meets a
+    damaged later one."""
+    inv = Inventory(path)
+    for f in [inv.list] + inv.manifests:
+        _rewrite(path, f, _avro_rewrite(inv.files[f], lambda recs: recs, sync_interval=1))
+
+
 def _variant_cur(value):
     def f(path: str) -> None:
         inv = Inventory(path)
@@ -471,6 +484,7 @@ VARIANTS: Dict[str, Tuple[List[List[int]], Any, bool]] = {
     "dup": ([[2, 1], [2]], variant_dup, True),
     "nosum": ([[2, 1], [2]], variant_nosum, True),
     "rowgroups": ([[7, 5], [6]], variant_rowgroups, True),
+    "blocks": ([[2, 1, 1], [1, 2]], variant_blocks, True),
     "dangling": ([[2], [1]], _variant_cur(424242), False),
     "cur-minus1": ([[2], [1]], _variant_cur(-1), False),
     "cur-null": ([[2], [1]], _variant_cur(None), False),
@@ -485,13 +499,21 @@ OPNAME = {"exists": "OpExists", "open_file": "OpOpen", "read_file": "OpRead", "l
 
 
 class _FailingStream:
-    """A stream that opens fine and fails on the first read (transient error while streaming)."""
+    """A stream that opens fine and fails while it is being read (transient error while streaming): on the first
+    read, or -- limit given -- once `limit` bytes have been delivered (the reader has already decoded what came
+    before)."""
 
-    def __init__(self, inner):
+    def __init__(self, inner, limit: int = 0):
         self.inner = inner
+        self.limit = limit
+        self.given = 0
 
     def read(self, *a):
-        raise TransientIO("injected transient read error")
+        if self.given >= self.limit:
+            raise TransientIO("injected transient read error")
+        data = self.inner.read(*a)       # a read that begins below the limit is served whole
+        self.given += len(data)
+        return data
 
     def __enter__(self):
         return self
@@ -625,8 +647,8 @@ class Instr:
                         res = _NotifyClose(res, self._mutate_locked)
                     else:
                         self._mutate()
-            if hit and self.fault[3] == "stream":
-                return _FailingStream(res)
+            if hit and self.fault[3].startswith("stream"):
+                return _FailingStream(res, int(self.fault[3].partition("@")[2] or 0))
             return res
         return wrapped
 
@@ -981,10 +1003,71 @@ def field_edits_for(inv: Inventory, path: str, tier: str) -> List[Dict[str, Any]
     return out
 
 
+def avro_blocks(b: bytes) -> List[Tuple[int, int]]:
+    """[start, end) of every data block of an Avro container (end = just after the block's sync marker)."""
+    bounds = avro_boundaries(b)
+    return list(zip(bounds, bounds[1:]))
+
+
+def decodable_prefix(b: bytes) -> Tuple[int, bool]:
+    """(records a streaming Avro decoder hands out, whether it then raises) -- for the evidence."""
+    import fastavro
+    n = 0
+    try:
+        for _ in fastavro.reader(io.BytesIO(b)):
+            n += 1
+    except Exception:  # noqa: BLE001
+        return n, True
+    return n, False
+
+
+def block_damages(inv: Inventory, path: str, tier: str, rng: random.Random) -> List[Dict[str, Any]]:
+    """Damage placed by the container's BLOCK structure, for every block (quick: the first, the second and the
+    last): the file cut in the middle of the block, everything from the middle of the block on replaced by random
+    bytes, the block's first byte (its record count) flipped, and a stream that fails once the bytes before the
+    middle of the block have been delivered.  On a container of several blocks a streaming decoder has handed out
+    the records of the blocks BEFORE the damaged one when it fails: `prefix` records that a reader must not keep."""
+    blocks = avro_blocks(inv.files[path])
+    which = list(range(len(blocks)))
+    if tier != "thorough":
+        which = sorted(set(which[:2] + which[-1:]))
+    out = []
+    for j in which[:12]:
+        for name in (f"blockcut@{j}", f"blockrand@{j}:{rng.randrange(10 ** 6)}", f"blockflip@{j}", f"transient-stream@{j}:OpOpen:0"):
+            d = damage_by_name(inv, path, name)
+            if d is not None:
+                out.append(d)
+    return out
+
+
 def damage_by_name(inv: Inventory, path: str, name: str) -> Optional[Dict[str, Any]]:
     """Rebuild one damage from its name alone (replay, shrinking)."""
     orig = inv.files.get(path, b"")
     n = len(orig)
+    if name.startswith("block") or name.startswith("transient-stream@"):
+        head, _, rest = name.partition("@")
+        j = int(rest.split(":")[0])
+        blocks = avro_blocks(orig)
+        if j >= len(blocks):
+            return None
+        start, end = blocks[j]
+        mid = start + max(1, (end - start - 16) // 2)
+        extra = {"tail": True, "block": j, "blocks": len(blocks)}
+        if head == "transient-stream":
+            _k, op, occ = name.split(":")
+            return dict(extra, name=name, **{"class": "transient"}, writes={}, fault=(path, op, int(occ), f"stream@{mid}"),
+                        prefix=decodable_prefix(orig[:start])[0])
+        if head == "blockcut":
+            new = orig[:mid]
+        elif head == "blockrand":
+            rs = random.Random(int(rest.split(":")[1]))
+            new = orig[:mid] + bytes(rs.randrange(256) for _ in range(n - mid))
+        elif head == "blockflip":
+            new = orig[:start] + bytes([orig[start] ^ 0xFF]) + orig[start + 1:]
+        else:
+            return None
+        cls = {"blockcut": "truncate", "blockrand": "replace", "blockflip": "flip"}[head]
+        return dict(extra, name=name, **{"class": cls}, writes={path: new}, prefix=decodable_prefix(new)[0])
     if name.startswith("edit:"):
         return field_edit(inv, path, name)
     if name.startswith("xor@"):
@@ -1016,7 +1099,7 @@ def damage_by_name(inv: Inventory, path: str, name: str) -> Optional[Dict[str, A
     return None
 
 
-def damages_for(inv: Inventory, path: str, tier: str, rng: random.Random) -> List[Dict[str, Any]]:
+def damages_for(inv: Inventory, path: str, tier: str, rng: random.Random, edits: bool = True) -> List[Dict[str, Any]]:
     """Each damage: {"name", "writes": {path: bytes|None}, "fault": (path, op, occ, mode)|None, "class"}."""
     role = inv.roles[path]
     orig = inv.files[path]
@@ -1035,7 +1118,9 @@ def damages_for(inv: Inventory, path: str, tier: str, rng: random.Random) -> Lis
         out.append({"name": f"truncate@{o}", "class": "truncate", "writes": {path: orig[:o]}, "structural": o in bounds})
     out.append(damage_by_name(inv, path, f"random:{rng.randrange(10 ** 6)}"))
     if role in ("list", "manifest"):
-        out.extend(field_edits_for(inv, path, tier))
+        out.extend(block_damages(inv, path, tier, rng))
+        if edits:
+            out.extend(field_edits_for(inv, path, tier))
     if role in ("list", "manifest"):
         # bytes on which fastavro raises something OUTSIDE the fallback tuple (MemoryError from a huge header read,
         # KeyError 'avro.schema'): the reader must let it propagate, not fall back, and certainly not return
@@ -1453,7 +1538,7 @@ def run_table(ctx, path: str, shape: List[List[int]], tag: str, file_limit: Opti
     for p, role in targets:
         for d in damages_for(inv, p, ctx.tier, rng):
             red = (role in reduced) if isinstance(reduced, (set, frozenset)) else bool(reduced)
-            if red and not (d["name"] in REDUCED or d["class"] == "transient" or d.get("structural")
+            if red and not (d["name"] in REDUCED or d["class"] == "transient" or d.get("structural") or d.get("tail")
                             or d["name"].startswith("random") or d.get("footer_flip") or d.get("value_flip")):
                 continue
             targets_dmgs.append((p, role, d))
@@ -1948,8 +2033,8 @@ def damage_scope(inv: "Inventory", p: str, role: str, dmg: Dict[str, Any]) -> Tu
 
 def reread_damages(inv: "Inventory", p: str, role: str, rng: random.Random, tier: str) -> List[Dict[str, Any]]:
     out = []
-    for d in damages_for(inv, p, "quick", rng):
-        if (d["class"] == "transient" or d["name"] in ("delete", "truncate@1") or d["name"].startswith("random:")
+    for d in damages_for(inv, p, "quick", rng, edits=False):
+        if (d["class"] == "transient" or d["name"] in ("delete", "truncate@1") or d["name"].startswith("random:") or d.get("tail")
                 or (role == "data" and (d["class"] == "swap" or d.get("value_flip")))
                 or (tier == "thorough" and d.get("structural"))):
             out.append(d)
@@ -2018,7 +2103,22 @@ def judge_reread(inv: "Inventory", role: str, p: str, dmg: Dict[str, Any], api: 
     return None
 
 
-def oracle_reread(ctx, path: str, shape: List[Any], variant: Optional[str], tag: str) -> None:
+def wide_commit_shape(path: str) -> List[Any]:
+    """One commit that adds enough data files for its manifest to span SEVERAL Avro blocks: the entry size is measured
+    on a two-file manifest, the block size is the writer's default sync interval."""
+    import inspect
+
+    import fastavro
+    SYNC_INTERVAL = inspect.signature(fastavro.writer).parameters["sync_interval"].default
+    build_table(path, [[1, 1]])
+    inv = Inventory(path)
+    b = inv.files[inv.manifests[0]]
+    blocks = avro_blocks(b)
+    per_entry = max(1, (len(b) - blocks[0][0] - 16) // 2)
+    return [[1] * (int(1.3 * SYNC_INTERVAL / per_entry) + 2)]
+
+
+def oracle_reread(ctx, path: str, shape: List[Any], variant: Optional[str], tag: str, data_limit: Optional[int] = None) -> None:
     """Every reachable file x damage inside the property x ONE long-lived handle: the nine reads (API x verify, the
     order rotating with the damage) with the damage in place -- from the first one that raises on, each is a read
     AFTER a read that raised -- then the same nine reads after the failure has cleared (files restored, no fault).
@@ -2032,6 +2132,10 @@ def oracle_reread(ctx, path: str, shape: List[Any], variant: Optional[str], tag:
     mc = ModelCtx(inv)
     rec_healthy = recovered_by_scan(inv)
     targets = inv.reachable() + ([(HINT_PATH, "pointer")] if HINT_PATH in inv.roles else [])
+    if data_limit is not None:
+        data = [x for x in targets if x[1] == "data"]
+        targets = [x for x in targets if x[1] != "data"] + (ctx.rng.sample(data, data_limit) if len(data) > data_limit else data)
+    ctx.stats.setdefault("avro_blocks", {})[tag] = {r + "#" + str(i): len(avro_blocks(inv.files[q])) for i, (q, r) in enumerate(inv.reachable()) if r in ("list", "manifest")}
     cases: List[Dict[str, Any]] = []
     reported = set()
     n_sessions = n_reads = n_judged = 0
@@ -2042,7 +2146,9 @@ def oracle_reread(ctx, path: str, shape: List[Any], variant: Optional[str], tag:
                 continue
             rot = n_sessions % len(ALL_READS)
             seq = ALL_READS[rot:] + ALL_READS[:rot]
-            reads = [[a, v, "damaged"] for a, v in seq + seq[:1]] + [[a, v, "cleared"] for a, v in seq]
+            # every read twice with the damage in place (the second round: each API after ITS OWN earlier call raised,
+            # and after every other API's), then once after the failure has cleared
+            reads = [[a, v, "damaged"] for a, v in seq + seq] + [[a, v, "cleared"] for a, v in seq]
             rec_dmg = rec_healthy
             if dmg["writes"]:
                 apply_damage(inv, dmg)
@@ -2176,6 +2282,11 @@ def run(ctx) -> None:
                                          + ([(history_shapes(ctx)[0], None), ([[2, 1], [2], [1]], "json"), ([[2], [1], [1]], "no-pointer")]
                                             if ctx.tier == "thorough" else [])):
         oracle_reread(ctx, os.path.join(ctx.scratch, f"tr{i}"), shape, variant, f"read-again:{variant or ('history' if i else 'standard')}")
+    # containers of SEVERAL blocks: re-encoded one record per block (small table, every file), and as a bulk commit
+    # produces them (one manifest of enough entries; the metadata plane and a sample of the data files)
+    oracle_reread(ctx, os.path.join(ctx.scratch, "trb"), VARIANTS["blocks"][0], "blocks", "read-again:blocks")
+    wide = wide_commit_shape(os.path.join(ctx.scratch, "trw0"))
+    oracle_reread(ctx, os.path.join(ctx.scratch, "trw"), wide + ([[1]] if ctx.tier == "thorough" else []), None, "read-again:wide-commit", data_limit=2)
     for i, (variant, sess) in enumerate([(None, False), ("no-pointer", False), (None, True)]
                                          + ([("bad-pointer", False), ("json", False), ("legacy-pointer-missing-file", False), ("no-pointer", True),
                                              ("dup", False)] if ctx.tier == "thorough" else [])):
